@@ -10,6 +10,7 @@ import (
 	"net/http"
 	"net/http/httptest"
 	"os"
+	"regexp"
 	"sort"
 	"strconv"
 	"strings"
@@ -291,7 +292,12 @@ var c06ReqAttrNames = []c06ReqAttr{
 	{Name: "uid", Friendly: "User", Format: "urn:oasis:names:tc:SAML:2.0:attrname-format:basic"},
 	{Name: "urn:oid:2.5.4.3", Format: "urn:oasis:names:tc:SAML:2.0:attrname-format:uri"},
 	{Name: "department", Format: "urn:oasis:names:tc:SAML:2.0:attrname-format:basic"},
+	{Name: "department", Format: "urn:oasis:names:tc:SAML:2.0:attrname-format:basic"},
+	{Name: "zQwanted1Qz", Format: "urn:oasis:names:tc:SAML:2.0:attrname-format:basic"},
+	{Name: "zQwanted2Qz", Friendly: "Role", Format: "urn:oasis:names:tc:SAML:2.0:attrname-format:unspecified"},
 }
+
+var c06MarkerRe = regexp.MustCompile(`^zQ([a-z]+)\d+Qz$`)
 
 func c06GenSP(g *Rng, i int) c06SP {
 	m := c06SP{}
@@ -669,6 +675,11 @@ func execEgress(t *testing.T, p *Plan) *Result {
 	}
 
 	nameFmt := map[int]string{} // session without a format of its own -> the NameID Format first seen
+	type c06Obs struct {
+		label string
+		has   map[string]bool
+	}
+	labelOf := map[string][]c06Obs{} // attribute name -> which session field its values carried, and which fields that session had at all
 	for si, raw := range p.Steps {
 		st := decode[c06Step](raw)
 		if st.SP < 0 || st.SP >= len(k.SPs) || st.Session < 0 || st.Session >= len(sessions) {
@@ -1069,10 +1080,35 @@ func execEgress(t *testing.T, p *Plan) *Result {
 				if !strings.HasPrefix(at.SelectAttrValue("Name", ""), "urn:") {
 					reqAttr = true
 				}
+				name := at.SelectAttrValue("Name", "")
 				for _, v := range at.SelectElements("AttributeValue") {
 					nvals++
 					if v.Text() != "" && !c06Has(exp.own, v.Text()) { // an empty value (empty session field) carries nobody's data
-						return bad("wrong-identity", "attributes/foreign-value", "a string of session "+strconv.Itoa(st.Session), short(v.Text(), 40), "attribute "+at.SelectAttrValue("Name", ""))
+						return bad("wrong-identity", "attributes/foreign-value", "a string of session "+strconv.Itoa(st.Session), short(v.Text(), 40), "attribute "+name)
+					}
+					// an attribute is a (name, field) pair of the session: whatever field a name stands for, it stands for the same one
+					// in every emission of the run, and a name nobody has ever heard of stands for none
+					if m := c06MarkerRe.FindStringSubmatch(v.Text()); m != nil {
+						if strings.HasPrefix(name, "zQwanted") {
+							return bad("wrong-identity", "attributes/unknown-name-answered", "no attribute named "+name+" (the session has none)", name+"="+short(v.Text(), 40), "")
+						}
+						has := map[string]bool{}
+						for _, o := range exp.own {
+							if om := c06MarkerRe.FindStringSubmatch(o); om != nil {
+								has[om[1]] = true
+							}
+						}
+						for _, prev := range labelOf[name] {
+							// a name may fall back to a second field when the first is empty (eduPersonPrincipalName -> mail is documented);
+							// no order of preference explains two sessions that both have both fields and are described by different ones
+							if prev.label != m[1] && prev.has[m[1]] && has[prev.label] {
+								return bad("wrong-identity", "attributes/name-stands-for-two-fields", "attribute "+name+" carries the session's "+prev.label+" as before", "the session's "+m[1], "both sessions have both fields")
+							}
+							if prev.label != m[1] {
+								res.dontcare("attribute-falls-back-to-another-field")
+							}
+						}
+						labelOf[name] = append(labelOf[name], c06Obs{m[1], has})
 					}
 				}
 			}
